@@ -580,3 +580,36 @@ def r_eq_noeffect(F, V):
                         R.violation("%s|%s" % (p, s["desc"]), body, "the accounting update `%s` is control-dependent on the boolean answer of a user callback (eq): an unlawful Eq could desynchronise items/growth_left/control bytes" % s["desc"], line=line_of(body, bb=s["bb"]))
     R.inst("raw::*", "no accounting store in the raw module is control-dependent on a user eq answer", "ok", True)
     return R
+
+
+# --------------------------------------------------------------------- R-SHRINK-DECISION
+
+def r_shrink_decision(F, V):
+    """whether shrink_to re-allocates must depend on the live item count, the request and the bucket count only -
+    never on growth_left / capacity(), which tombstones reduce."""
+    R = Result("R-SHRINK-DECISION", F.cfg)
+    b = F.bodies.get("raw::RawTable::shrink_to")
+    if b is None:
+        R.undec("raw::RawTable::shrink_to not found")
+        return R
+    acts = [i for i, t in b.calls() if (callee_path(t) or "").endswith("RawTable::resize") or (callee_path(t) or "").endswith("RawTableInner::with_capacity") or (callee_path(t) or "") == "core::mem::replace"]
+    if not acts:
+        R.undec("shrink_to: no resize / with_capacity / mem::replace call found")
+        return R
+    bad = None
+    seen_buckets = False
+    for a in acts:
+        for (bb, s, S) in controlling_sources(b, a):
+            if S.has_load("growth_left") or S.has_call("::capacity"):
+                bad = (bb, "growth_left / capacity()")
+            if S.has_call("::buckets") or S.has_load("bucket_mask"):
+                seen_buckets = True
+    key = "raw::RawTable::shrink_to|decision"
+    if bad:
+        R.violation(key, b, "the decision to shrink depends on %s, which every tombstone reduces: a table saturated with tombstones is never shrunk although few elements are live" % bad[1], line=line_of(b, bb=bad[0]))
+        R.inst(key, "shrink decision depends on tombstones", "violation", True, where(b, bb=bad[0]))
+    elif not seen_buckets:
+        R.violation(key, b, "the decision to shrink does not compare bucket counts (capacity_to_buckets(min_size) against buckets())")
+    else:
+        R.inst(key, "shrinking is decided on items / requested size / bucket count only", "ok", True, where(b))
+    return R
